@@ -2,7 +2,7 @@
 # no_alarm_audit.sh <first-seed> <last-seed>: runs every quick check on the unchanged tree under other VERIF_SEED
 # values and reports any run that does not exit 0. Evidence files are restored afterwards (they belong to seed 1).
 cd "$(dirname "$0")"
-mkdir -p .scratch/audit-evidence && cp evidence/*.json .scratch/audit-evidence/ 2>/dev/null
+mkdir -p target/audit-evidence && cp evidence/*.json target/audit-evidence/ 2>/dev/null
 bad=0
 for seed in $(seq "$1" "$2"); do
   for p in C07 C12 C16 C20; do
@@ -11,6 +11,6 @@ for seed in $(seq "$1" "$2"); do
     if [ $rc -ne 0 ]; then bad=$((bad+1)); echo "$out" | grep -E "VIOLATION|HARNESS|UNSTABLE|AUDIT|^  " | cut -c1-300; fi
   done
 done
-cp .scratch/audit-evidence/*.json evidence/ 2>/dev/null
+cp target/audit-evidence/*.json evidence/ 2>/dev/null
 echo "no-alarm audit: $bad alarm(s)"
 exit $bad
